@@ -122,6 +122,7 @@ type Engine struct {
 	disabledFrames map[string]bool
 	funcIDs    map[*ssa.Function]int
 	funcByID   map[int]*ssa.Function
+	ghostFields map[string][]GhostField // "pkgpath.Type" -> ghost fields
 }
 
 func typeKey(t types.Type) string { return types.TypeString(types.Unalias(t), nil) }
@@ -186,7 +187,51 @@ func (e *Engine) layout0(t types.Type) []Comp {
 		if g, ok := ghostLayouts[name]; ok && g != nil {
 			return g
 		}
+		if gfs := e.ghostFields[name]; len(gfs) > 0 {
+			if _, isS := n.Underlying().(*types.Struct); isS {
+				out := append([]Comp(nil), e.layout1(n.Underlying())...)
+				for _, gf := range gfs {
+					switch gf.Sort {
+					case "seq":
+						out = append(out, Comp{Path: "$" + gf.Name + ".arr", Sort: SArr, Kind: "gseq.arr"}, Comp{Path: "$" + gf.Name + ".len", Sort: SInt, Kind: "ghostlen"})
+					case "bool":
+						out = append(out, Comp{Path: "$" + gf.Name, Sort: SBool, Kind: "ghost"})
+					default:
+						out = append(out, Comp{Path: "$" + gf.Name, Sort: SInt, Kind: "ghost"})
+					}
+				}
+				return out
+			}
+		}
 	}
+	return e.layout1(t)
+}
+
+// ghostField finds a declared ghost field of a (pointer to a) named struct: component offset, count, sort.
+func (e *Engine) ghostField(t types.Type, name string) (int, int, string, bool) {
+	t = types.Unalias(derefT(types.Unalias(t)))
+	n, ok := t.(*types.Named)
+	if !ok || n.Obj().Pkg() == nil {
+		return 0, 0, "", false
+	}
+	for _, gf := range e.ghostFields[n.Obj().Pkg().Path()+"."+n.Obj().Name()] {
+		if gf.Name != name {
+			continue
+		}
+		for j, c := range e.layout(t) {
+			if c.Path == "$"+name || c.Path == "$"+name+".arr" {
+				cnt := 1
+				if gf.Sort == "seq" {
+					cnt = 2
+				}
+				return j, cnt, gf.Sort, true
+			}
+		}
+	}
+	return 0, 0, "", false
+}
+
+func (e *Engine) layout1(t types.Type) []Comp {
 	if a, ok := t.(*types.Alias); ok {
 		return e.layout(types.Unalias(a))
 	}
